@@ -222,8 +222,8 @@ def r16_3(cx):
     st = [(tstr(tt, 100), v) for bi, si, tt, v, s in i.field_stores()]
     cx.report('R16.3', i, 'full-state', ok, 'init_full_state links one transition per byte 0..=255 to the given target' if ok else 'init_full_state does not cover 0..=255')
     c = cx.body('nfa::contiguous::Builder::build_from_noncontiguous')
-    il = c.locals_named('index_to_state_id')
-    d = expand_vars(c, c.def_term(il[0])) if il else None
+    il = [i for i, l in enumerate(c.locals) if l['ty'].startswith('alloc::vec::Vec<util::primitives::StateID') and c.def_term(i) is not None and is_call(expand_vars(c, c.def_term(i)), r'alloc::vec::from_elem$')]
+    d = expand_vars(c, c.def_term(il[0])) if len(il) == 1 else None
     ok = d is not None and is_call(d, r'alloc::vec::from_elem$') and is_named_const(d[2][0], r'contiguous::NFA::DEAD$')
     cx.report('R16.3', c, 'remap-default-dead', ok, 'the contiguous id map defaults to DEAD (DEAD -> DEAD)' if ok else 'index_to_state_id is not initialised with DEAD')
     d2 = cx.body('dfa::Builder::build_from_noncontiguous')
